@@ -28,8 +28,9 @@ Definition scan_state := (Z * option Z)%type.   (* cursor, run_start *)
 Definition emit_open (o : option Z) (e : Z) : list (Z * Z) :=
   match o with Some s => [(s, e)] | None => [] end.
 
-(* one iteration of the `for line in infile` loop, sequence-line branch *)
-Definition scan_line (st : scan_state) (line : list A) : list (Z * Z) * scan_state :=
+(* one iteration of the `for line in infile` loop, sequence-line branch, for a line that
+   is not empty after rstrip *)
+Definition scan_line_body (st : scan_state) (line : list A) : list (Z * Z) * scan_state :=
   let '(cursor, run_start) := st in
   let len := Z.of_nat (length line) in
   if existsb isN line then
@@ -48,6 +49,14 @@ Definition scan_line (st : scan_state) (line : list A) : list (Z * Z) * scan_sta
       (first ++ gaps cursor ns, (cursor + len, rs))
   else
     ([], (cursor + len, match run_start with None => Some cursor | Some s => Some s end)).
+
+(* `line = line.rstrip(); if not line: continue`: a blank line has no bases, it neither
+   starts nor ends a run and leaves the cursor where it is (fix 784419a) *)
+Definition scan_line (st : scan_state) (line : list A) : list (Z * Z) * scan_state :=
+  match line with
+  | [] => ([], st)
+  | _ => scan_line_body st line
+  end.
 
 Fixpoint scan_lines (st : scan_state) (lines : list (list A)) : list (Z * Z) * scan_state :=
   match lines with
